@@ -42,7 +42,9 @@ def case_from_tlc(obj, h, g):
     f = {"id": "f1", "pathKind": "main", "dirs": "p", "pkg": "p", "imports": [],
          "unit": {"kind": "class", "name": "K", "tparams": "", "ext": "", "extq": "", "impls": [], "anns": [],
                   "members": [member("run", []), member("caller", [stmt]), member("sink", [])]}}
-    return {"case": "tlc-" + h, "files": [f], "layout": 0, "req": {"pkg": "p", "cls": "K", "old": "run", "new": new}}
+    # one layout in four is renamed after the same process has renamed the method to a temporary name and back
+    return {"case": "tlc-" + h, "files": [f], "layout": 0, "req": {"pkg": "p", "cls": "K", "old": "run", "new": new},
+            "thereAndBack": int(h[:2], 16) % 4 == 0}
 
 
 def nontrivial(rec):
